@@ -125,6 +125,38 @@ func init() {
 		reads := c18Reads(m, iohelper.AtToReader(m, a[5].I64()), a[6].I64s())
 		return L(calls, file, reads)
 	}
+	Exec["iohelper.TwoSections"] = func(a []V) string {
+		m := &c18File{data: append([]byte(nil), a[0].Bytes()...), wscript: a[6].L}
+		ws := [2]c18Section{
+			iohelper.NewSectionWriter(m, a[1].I64(), a[2].I64()),
+			iohelper.NewSectionWriter(m, a[3].I64(), a[4].I64()),
+		}
+		out := make([]string, 0, len(a[5].L))
+		for _, wc := range a[5].L {
+			m.wcalls = m.wcalls[:0]
+			rets := c18Call(ws[wc.L[0].Int()], wc.L[1])
+			out = append(out, L(rets, L(m.wcalls...)))
+		}
+		return L(L(out...), Bytes(m.data))
+	}
+}
+
+// c18Call runs one call of the protocol on s and renders its return values.
+func c18Call(s c18Section, c V) string {
+	switch c.L[0].Int() {
+	case 0:
+		n, err := s.Write(c.L[1].Bytes())
+		return L(Int(n), Int(c18ErrClass(err)))
+	case 1:
+		n, err := s.WriteAt(c.L[1].Bytes(), c.L[2].I64())
+		return L(Int(n), Int(c18ErrClass(err)))
+	case 2:
+		p, err := s.Seek(c.L[1].I64(), c.L[2].Int())
+		return L(I(p), Int(c18ErrClass(err)))
+	case 3:
+		return L(I(s.Size()))
+	}
+	panic("bad call")
 }
 
 // c18RunFile is c18Run with the file as the recorder of underlying calls.
@@ -132,22 +164,7 @@ func c18RunFile(m *c18File, s c18Section, calls []V) string {
 	out := make([]string, 0, len(calls))
 	for _, c := range calls {
 		m.wcalls = m.wcalls[:0]
-		var rets string
-		switch c.L[0].Int() {
-		case 0:
-			n, err := s.Write(c.L[1].Bytes())
-			rets = L(Int(n), Int(c18ErrClass(err)))
-		case 1:
-			n, err := s.WriteAt(c.L[1].Bytes(), c.L[2].I64())
-			rets = L(Int(n), Int(c18ErrClass(err)))
-		case 2:
-			p, err := s.Seek(c.L[1].I64(), c.L[2].Int())
-			rets = L(I(p), Int(c18ErrClass(err)))
-		case 3:
-			rets = L(I(s.Size()))
-		default:
-			panic("bad call")
-		}
+		rets := c18Call(s, c)
 		out = append(out, L(rets, L(m.wcalls...)))
 	}
 	return L(out...)
@@ -270,7 +287,7 @@ func genC18Wide(g *Gen) {
 			emitReader(c18Data(3, 0), maxI-d, []int64{l, 2}, [][2]int64{{0, 0}, {0, 2}}, "reader-int64-end")
 		}
 	}
-	nr := g.N(3000, 60000)
+	nr := g.N(3000, 40000)
 	for k := 0; k < nr; k++ {
 		fl := g.R.Pick(0, 1, 2, 7, 8, 63, 64, 65, 100, 255, 256, 257, 300)
 		if g.R.Intn(4) == 0 {
@@ -337,6 +354,18 @@ func genC18Wide(g *Gen) {
 			}
 		}
 		emitReader(data, off, lens, rs, fmt.Sprintf("reader-rand-f%d", fmode))
+	}
+
+	// a few large files (crossing 64 KiB), read in chunks around 4 KiB / 64 KiB and to the end
+	for k, nk := 0, g.N(3, 40); k < nk; k++ {
+		fl := 65536 + g.R.Range(1, 5000)
+		off := int64(g.R.Pick(0, 1, 4095, 4096))
+		chunk := int64(g.R.Pick(4095, 4096, 4097, 65535, 65536, 65537))
+		var lens []int64
+		for got := int64(0); got < int64(fl)-off+chunk; got += chunk {
+			lens = append(lens, chunk)
+		}
+		emitReader(c18Data(fl, byte(k)), off, lens, nil, "reader-large")
 	}
 
 	// ---- iohelper.File ----
@@ -425,7 +454,7 @@ func genC18Wide(g *Gen) {
 	}
 	g.Exhaust = append(g.Exhaust, "File: initial files of 0/1/3 bytes x off 0..3 x n in {AtToWriter, 0, 1, 3} x every pair of calls from a 9-call alphabet (Write 0..2; WriteAt (1,0) (2,1) (1,2); Seek (0,start) (2,start) (1,current)) followed by Write(2), then Reads of 1, 3, 4 bytes through AtToReader at the section start")
 
-	nf := g.N(3000, 80000)
+	nf := g.N(3000, 50000)
 	for k := 0; k < nf; k++ {
 		il := g.R.Pick(0, 0, 1, 5, 64, 100, 200)
 		if g.R.Intn(4) == 0 {
@@ -564,5 +593,207 @@ func genC18Wide(g *Gen) {
 			}
 		}
 		emitFile(h, at, c18Data(il, 200), roff, lens, rs, fev, *flen, *stored, fmt.Sprintf("file-rand-f%d", fmode))
+	}
+
+	// ---- iohelper.TwoSections: two writers over one file, calls interleaved ----
+	pairEvs := []string{"G", "X", "I", "T", "E", "L", "F", "R", "A", "S0", "S1", "S2", "B"}
+	emitPair := func(h [2]*c18Hist, wcalls []string, init []byte, fev map[string]bool, stored [2]int64, switches int, class string, bucket string) {
+		for _, hh := range h {
+			for _, f := range []string{"T", "E", "L", "F", "R", "A", "S0", "S1", "S2", "B"} {
+				if hh.ev[f] {
+					fev[f] = true
+				}
+			}
+		}
+		key := ""
+		// non-trivial: both writers stored bytes and the calls switched writer at least twice
+		if stored[0] > 0 && stored[1] > 0 && switches >= 2 {
+			key = "pair/" + class + "/" + c18EvKey(fev, pairEvs)
+		}
+		g.Stat(bucket)
+		sc := "[" + strings.Join(h[0].script, ",") + "]"
+		g.Do("iohelper.TwoSections", L(Bytes(init), I(h[0].off), I(h[0].n), I(h[1].off), I(h[1].n),
+			"["+strings.Join(wcalls, ",")+"]", sc), key)
+	}
+	newPair := func(o1, n1, o2, n2 int64, il int) ([2]*c18Hist, map[string]bool, *[2]int64) {
+		fev := map[string]bool{}
+		flen := int64(il)
+		var stored [2]int64
+		h := [2]*c18Hist{c18New(o1, n1), c18New(o2, n2)}
+		h[1].sh = h[0] // one underlying writer: one response script, consumed in call order
+		for w := 0; w < 2; w++ {
+			w := w
+			h[w].store = func(abs, cnt int64) {
+				if cnt <= 0 {
+					return
+				}
+				stored[w] += cnt
+				switch {
+				case abs > flen:
+					fev["G"] = true
+				case abs+cnt > flen:
+					fev["X"] = true
+				default:
+					fev["I"] = true
+				}
+				if abs+cnt > flen {
+					flen = abs + cnt
+				}
+			}
+		}
+		return h, fev, &stored
+	}
+	// do: run one action on writer w and record the call it appended
+	pairDo := func(h [2]*c18Hist, wcalls *[]string, w int, f func(h *c18Hist)) {
+		before := len(h[w].calls)
+		f(h[w])
+		*wcalls = append(*wcalls, L(Int(w), h[w].calls[before]))
+	}
+	// exhaustive small: sections (0,2)/(2,2) adjacent, (0,3)/(1,3) overlapping, (1,2)/(1,2) identical;
+	// every sequence of 3 (writer, call) pairs from a 5-call alphabet, then Write(1) on both
+	palpha := []fact{
+		func(h *c18Hist) { h.Write(1) }, func(h *c18Hist) { h.Write(2) },
+		func(h *c18Hist) { h.WriteAt(1, 1) }, func(h *c18Hist) { h.Seek(1, 0) }, func(h *c18Hist) { h.Seek(0, 0) },
+	}
+	for ci, cfg := range [][4]int64{{0, 2, 2, 2}, {0, 3, 1, 3}, {1, 2, 1, 2}} {
+		np := len(palpha) * 2
+		for x := 0; x < np*np*np; x++ {
+			h, fev, stored := newPair(cfg[0], cfg[1], cfg[2], cfg[3], 1)
+			h[0].seq, h[1].seq = 0x10, 0x80
+			var wcalls []string
+			sw, last := 0, -1
+			for _, y := range []int{x % np, (x / np) % np, x / (np * np)} {
+				w := y % 2
+				if last >= 0 && w != last {
+					sw++
+				}
+				last = w
+				pairDo(h, &wcalls, w, palpha[y/2])
+			}
+			pairDo(h, &wcalls, 0, func(h *c18Hist) { h.Write(1) })
+			pairDo(h, &wcalls, 1, func(h *c18Hist) { h.Write(1) })
+			emitPair(h, wcalls, c18Data(1, 200), fev, *stored, sw+1, []string{"adj", "ovl", "same"}[ci], "pair-exh")
+		}
+	}
+	g.Exhaust = append(g.Exhaust, "TwoSections: sections (0,2)/(2,2), (0,3)/(1,3), (1,2)/(1,2) x every sequence of 3 (writer, call) pairs from a 5-call alphabet (Write 1, Write 2, WriteAt(1,1), Seek(1,start), Seek(0,start)) followed by Write(1) on each writer")
+
+	np := g.N(3000, 50000)
+	for k := 0; k < np; k++ {
+		il := g.R.Pick(0, 0, 5, 64, 200)
+		o1 := int64(g.R.Pick(0, 0, 1, 7, 64))
+		if g.R.Intn(3) == 0 {
+			o1 = int64(g.R.Range(0, 200))
+		}
+		n1 := int64(g.R.Pick(0, 1, 2, 8, 16, 64, 100))
+		if g.R.Intn(8) == 0 {
+			n1 = maxI - o1
+		}
+		var o2, n2 int64
+		class := ""
+		b1 := n1
+		if b1 > 200 {
+			b1 = 200
+		}
+		switch g.R.Intn(6) {
+		case 0:
+			o2, class = o1+b1, "adj" // starts where the first ends
+		case 1:
+			o2, class = o1+b1+int64(g.R.Range(1, 50)), "dis"
+		case 2:
+			o2, class = o1+int64(g.R.Intn(int(b1)+1)), "ovl"
+		case 3:
+			o2, class = o1, "same"
+		case 4:
+			o2 = o1 - int64(g.R.Range(1, 20)) // the second starts before the first
+			if o2 < 0 {
+				o2 = 0
+			}
+			class = "bef"
+		default:
+			o2, class = int64(g.R.Range(0, 300)), "any"
+		}
+		n2 = int64(g.R.Pick(0, 1, 2, 8, 16, 64, 100))
+		if class == "same" && g.R.Bool() {
+			n2 = n1
+		}
+		if g.R.Intn(10) == 0 {
+			n2 = maxI - o2
+		}
+		h, fev, stored := newPair(o1, n1, o2, n2, il)
+		h[0].seq, h[1].seq = byte(g.R.Intn(100)), byte(128+g.R.Intn(100))
+		ncalls := g.R.Range(2, 24)
+		fmode := g.R.Pick(0, 0, 0, 1, 2)
+		for c := 0; c < ncalls; c++ {
+			switch {
+			case fmode == 0:
+			case fmode == 1 && g.R.Intn(4) != 0:
+				h[0].Resp(100000, 0)
+			default:
+				h[0].Resp(int64(g.R.Pick(0, 1, 2, 3, 10, 100000)), g.R.Pick(0, 0, 1, 2))
+			}
+		}
+		var wcalls []string
+		sw, last := 0, -1
+		w := g.R.Intn(2)
+		for c := 0; c < ncalls; c++ {
+			// alternate often, sometimes stay
+			if g.R.Intn(3) != 0 {
+				w = 1 - w
+			}
+			if last >= 0 && w != last {
+				sw++
+			}
+			last = w
+			hw := h[w]
+			room := hw.n
+			if room > 200 {
+				room = 200
+			}
+			pickLen := func(rem int64) int {
+				var l int64
+				switch g.R.Intn(7) {
+				case 0:
+					l = 0
+				case 1:
+					l = rem
+				case 2:
+					l = rem + 1
+				case 3:
+					l = rem - 1
+				default:
+					l = int64(g.R.Range(1, 20))
+				}
+				if l < 0 || l > 300 {
+					l = int64(g.R.Range(0, 20))
+				}
+				return int(l)
+			}
+			switch g.R.Intn(10) {
+			case 0, 1, 2, 3, 4:
+				pairDo(h, &wcalls, w, func(h *c18Hist) { h.Write(pickLen(h.n - h.pos)) })
+			case 5, 6:
+				o := int64(g.R.Range(-1, int(room)+1))
+				pairDo(h, &wcalls, w, func(h *c18Hist) { h.WriteAt(pickLen(h.n-o), o) })
+			case 7, 8:
+				t := int64(g.R.Range(-1, int(room)+3))
+				switch g.R.Pick(0, 1, 2, 3) {
+				case 0:
+					pairDo(h, &wcalls, w, func(h *c18Hist) { h.Seek(t, 0) })
+				case 1:
+					pairDo(h, &wcalls, w, func(h *c18Hist) { h.Seek(t-h.pos, 1) })
+				case 2:
+					if hw.n <= 200 {
+						pairDo(h, &wcalls, w, func(h *c18Hist) { h.Seek(t-h.n, 2) })
+					} else {
+						pairDo(h, &wcalls, w, func(h *c18Hist) { h.Seek(0, 5) })
+					}
+				default:
+					pairDo(h, &wcalls, w, func(h *c18Hist) { h.Seek(0, 1) }) // where am I
+				}
+			default:
+				pairDo(h, &wcalls, w, func(h *c18Hist) { h.Size() })
+			}
+		}
+		emitPair(h, wcalls, c18Data(il, 200), fev, *stored, sw, class, fmt.Sprintf("pair-rand-f%d", fmode))
 	}
 }
